@@ -83,8 +83,11 @@ class Tr:
             return "(" + op.join(self.cond(v) for v in e.values) + ")"
         if isinstance(e, ast.UnaryOp) and isinstance(e.op, ast.Not):
             return "(negb %s)" % self.cond(e.operand)
-        if isinstance(e, ast.Call) and isinstance(e.func, ast.Attribute) and not e.args and e.func.attr in self.attrs.get("__methods__", {}):
-            return "(%s %s)" % (self.attrs["__methods__"][e.func.attr], self.expr(e.func.value))
+        if isinstance(e, ast.Call) and isinstance(e.func, ast.Attribute) and not e.keywords \
+                and e.func.attr in self.attrs.get("__methods__", {}):
+            # a boolean method of the same class, itself translated earlier in the generated file
+            return "(%s %s)" % (self.attrs["__methods__"][e.func.attr],
+                                " ".join([self.expr(e.func.value)] + [self.expr(a) for a in e.args]))
         raise Untranslatable("condition " + ast.dump(e)[:80])
 
     def block(self, stmts):
